@@ -113,6 +113,13 @@ pub fn build_tagged(a: &mut Allocator, t: &T, tags: &mut std::str::Chars) -> Nod
                 long.extend_from_slice(&[0xaa; 7]);
                 let x = a.new_atom(&long).unwrap();
                 a.new_substr(x, 0, 1).unwrap()
+            } else if tag == 'E' {
+                // a substring view (of any length, including the empty one) into a longer heap atom
+                let mut long = vec![0xbb, 0xcc, 0xdd];
+                long.extend_from_slice(b);
+                long.extend_from_slice(&[0xaa; 7]);
+                let x = a.new_atom(&long).unwrap();
+                a.new_substr(x, 3, 3 + b.len() as u32).unwrap()
             } else if b.is_empty() {
                 a.nil()
             } else if b == &[1u8] {
